@@ -351,9 +351,10 @@ def rule_reader_exact(fb, res):
         if not (g.rec.endswith("CaptureModulePayload") or g.rec.endswith("InterfacePayload")) or g.rec.startswith("TECMP"):
             continue
         ends = buffer_end_locals(g)
-        if not ends:
-            continue
         pdecl = g.params[0]["decl"]
+        from rules.c03 import remaining_accessor_locals as _ral
+        if not ends and not _ral(g, pdecl):
+            continue
         # the value read from the length field: locals initialised from a dereference of the pointer
         lens = set()
         for d, es in local_defs(g).items():
@@ -371,8 +372,9 @@ def rule_reader_exact(fb, res):
                         if len(es) == 1 and raw in reads(es[0]) and (callee_name(strip_all_casts(es[0])) or "").endswith("swapEndian"):
                             lens.add(d)
         cfg = g.cfg
-        from rules.c03 import remaining_views
+        from rules.c03 import remaining_views, remaining_accessor_locals
         rviews = remaining_views(g, ends, pdecl)
+        ralocals = remaining_accessor_locals(g, pdecl)
         advances = [x for x in g.nodes() if x.get("k") == "cassign" and x.get("op") == "+" and lvalue_root(x["l"]) == pdecl]
         # a view of the remaining bytes that is shrunk from the front plays the cursor's role
         advances += [{"r": x["args"][0], "id": x["id"]} for x in g.calls() if (x.get("callee") or {}).get("nm") == "remove_prefix" and x.get("args") and
@@ -383,14 +385,16 @@ def rule_reader_exact(fb, res):
                 return "R"
             if x.get("k") == "call" and (x.get("callee") or {}).get("nm") in ("size", "length") and strip_all_casts(x.get("obj", {})).get("decl") in rviews:
                 return "R"
+            if x.get("k") == "ref" and x.get("decl") in ralocals:
+                return "R"  # = end - ptr whenever it is non-zero (a bounded 'available bytes' accessor)
             if x.get("k") == "ref" and x.get("decl") in lens:
                 return "L"
             return None
         for c in g.nodes():
             if c.get("k") != "bin" or c.get("op") not in ("<", "<=", ">", ">="):
                 continue
-            l = strip_all_casts(facts.expand(g, c["l"], keep=tuple(ends | lens | rviews)))
-            r = strip_all_casts(facts.expand(g, c["r"], keep=tuple(ends | lens | rviews)))
+            l = strip_all_casts(facts.expand(g, c["l"], keep=tuple(ends | lens | rviews | ralocals)))
+            r = strip_all_casts(facts.expand(g, c["r"], keep=tuple(ends | lens | rviews | ralocals)))
             if not any(syms(x) == "R" for e in (l, r) for x in walk(e)):
                 continue
             n += 1
